@@ -16,6 +16,10 @@ CHECKS["C07"] = dict(engine="E2", level="exploration", technique="deterministic 
    text="Every call is executed on a simulated client: the scheduler owns every RWMutex acquisition (hook H1), so a self-deadlock or a lock-order inversion is decided (some client live, none runnable), a busy loop hits the step budget / watchdog and a panic is recovered and reported. Sequential histories draw operands from an adversarial domain on MemFS, OrefaFS, RoFS, BasePathFS and FailFS; concurrent programs of 2-4 clients explore seeded interleavings (uniform, sticky-with-preemption, round-robin, PCT). Sampling, not proof.",
    note="trusted: scheduler model of sync.RWMutex (TryLock cross-check), the 20 s no-event watchdog as the definition of a busy loop, sizes bounded to 1 MiB", ref="3/C07")
 
+CHECKS["C06"] = dict(engine="E2", level="exploration", technique="deterministic simulation: seeded interleavings at lock granularity + porcupine linearizability against the sequential implementation",
+   text="Programs of 2-4 clients x 1-3 namespace calls on one shared tree (MemFS through per-client Sub views, or one OrefaFS) run under the serialising scheduler; every RWMutex acquisition is a scheduling point decided from the tape. The history (invoke/return by global event counter) plus a final observation of the tree and all handles is checked with porcupine against the same implementation executed sequentially (fresh instance per candidate order). Two recorded root causes (acting on a directory/name that a concurrent call removes or moves) are known findings; 90% of the runs drop the calls that would expose them so that the rest of the space is checked strictly. Sampling, not proof.",
+   note="trusted: scheduler model of sync.RWMutex (TryLock cross-check), porcupine, equivalence of sequential orders with identical observable state; sequential defects are out of scope here (C01)", ref="3/C06")
+
 NA = {
  "C13": "Clean, Join, Split, Dir, Base, IsAbs, Rel, Abs, FromSlash, ToSlash, VolumeName, Match and PathIterator are pure functions of their string arguments and the OS-type constant: there is no schedule, clock, I/O, fault or shared state for a simulator to control; generating strings is input fuzzing, a different technique (DESIGN.md section 4).",
 }
